@@ -154,9 +154,10 @@ def _frames(e):
 
 
 def crash_identity(exc_type, frames):
-  """(exception type, innermost pytype frame file:function); RecursionError has no meaningful innermost frame."""
+  """(exception type, innermost pytype frame file:function); a RecursionError has no meaningful innermost
+  frame, the stage in which it was raised is used instead."""
   if exc_type == "RecursionError" or not frames:
-    return [exc_type, "*"]
+    return [exc_type, "stage:%s" % stage_of(frames)]
   return [exc_type, "%s:%s" % (frames[-1][0], frames[-1][1])]
 
 
@@ -273,7 +274,8 @@ class Pool:
   """Process pool with a per-case timeout enforced by killing the worker."""
 
   def __init__(self, n=NWORKERS):
-    common.load_pytype()          # build the ext once, before forking
+    # build the ext, import pytype and warm its caches once, before forking (workers inherit it copy-on-write)
+    analyse("x = 1\n", tag="warm")
     self.ctx = mp.get_context("fork")
     self.n = n
     self.workers = []
@@ -285,14 +287,23 @@ class Pool:
     b.close()
     return {"p": p, "conn": a, "job": None, "deadline": None}
 
-  def run(self, jobs, timeout, progress=None):
-    """jobs: [(src, nofail, check)] -> [record] (record {"timeout": True} on timeout)."""
+  def run(self, jobs, timeout, progress=None, budget=None):
+    """jobs: [(src, nofail, check)] -> [record] (record {"timeout": True} on timeout; {"skipped": True} for
+    jobs not started when the wall-clock `budget` (seconds) of this call ran out)."""
+    t_end = time.time() + budget if budget else None
     results = [None] * len(jobs)
     pending = list(range(len(jobs)))[::-1]
     while len(self.workers) < min(self.n, max(1, len(jobs))):
       self.workers.append(self._spawn())
     done = 0
     while done < len(jobs):
+      if t_end is not None and pending and time.time() > t_end:
+        for i in pending:
+          results[i] = {"skipped": True}
+          done += 1
+        pending = []
+        if done >= len(jobs):
+          break
       for w in self.workers:
         if w["job"] is None and pending:
           i = pending.pop()
@@ -417,8 +428,12 @@ def judge(src, rec, known):
   unexpected-final, line-out-of-file (detail["identity"] is what a known finding must match)."""
   if rec is None or rec.get("timeout"):
     return "timeout", None
+  if rec.get("skipped"):
+    return "skipped", None
   if rec.get("worker_died") or rec.get("harness_error"):
     return "harness", rec
+  if rec.get("died"):
+    return "process-died", {"identity": ["rc=%s" % rec.get("rc")], "note": "the interpreter died twice on this source"}
   cp = cpython_compile(src)
   exc = rec.get("exc")
   nl = nlines_of(src)
@@ -552,6 +567,10 @@ HAND = [
     ("hand", "x = 0777\n"),
     ("hand", "print 'hello'\n"),
     ("hand", "def f():\n  '''doc'''\nclass C(f): pass\nC().x.y.z()\n"),
+    ("hand", "x = " + "(" * 300 + ")" * 300 + "\n"),      # SyntaxError: too many nested parentheses
+    ("hand", "x = " + "-" * 3000 + "1\n"),                # CPython: RecursionError during compilation
+    ("hand", "x = [\n" + "  1,\n" * 3000 + "]\n"),
+    ("hand", "def f():\n" + "".join("  if x == %d:\n    return %d\n" % (i, i) for i in range(150))),
 ]
 
 
@@ -758,7 +777,7 @@ def opcodes_seen(sources):
 
 
 # ------------------------------------------------------------------------------------------ K part (b): testing
-def run_inputs(pool, cases, rng, timeout, known, drv):
+def run_inputs(pool, cases, rng, timeout, known, drv, budget=None):
   """cases: [(label, src)] -> (summary, disagreements)."""
   jobs = []
   for i, c in enumerate(cases):
@@ -767,11 +786,20 @@ def run_inputs(pool, cases, rng, timeout, known, drv):
     else:
       jobs.append((c[1], i % 5 == 3, i % 4 == 2))
   cases = [(c[0], c[1]) for c in cases]
-  recs = pool.run(jobs, timeout)
+  recs = pool.run(jobs, timeout, budget=budget)
+  retried = 0
+  for i, rec in enumerate(recs):
+    if rec and rec.get("worker_died"):
+      # could be the OOM killer on a loaded machine: once more, alone, in a fresh interpreter
+      retried += 1
+      r2 = run_fresh(jobs[i][0], jobs[i][1], jobs[i][2], timeout=timeout)
+      if r2.get("harness_error") == "no output":
+        r2 = {"final": "PROCESS-DIED", "nofail": jobs[i][1], "check": jobs[i][2], "died": True, "rc": r2.get("rc")}
+      recs[i] = r2
   lines = []
   idxs = []
   for i, rec in enumerate(recs):
-    if rec and "final" in rec:
+    if rec and "final" in rec and not rec.get("died"):
       lines.append(model_line(rec))
       idxs.append(i)
   outs = drv.batch(lines) if lines else []
@@ -790,7 +818,7 @@ def run_inputs(pool, cases, rng, timeout, known, drv):
     per_label[label.split(":")[0]][verdict] += 1
     if rec.get("wall"):
       walls.append(rec["wall"])
-    if verdict == "timeout":
+    if verdict in ("timeout", "skipped"):
       continue
     if verdict == "harness":
       disagreements.append({"kind": "harness-problem", "label": label, "detail": str(detail)[:600], "source": src[:3000]})
@@ -820,6 +848,7 @@ def run_inputs(pool, cases, rng, timeout, known, drv):
              "per_label": {k: dict(v) for k, v in per_label.items()},
              "env_artefacts": dict(env_notes), "known_finding_hits": dict(known_hits),
              "undeclared_but_accepted": {"%s/%s" % k: v for k, v in undeclared.items()},
+             "retried_after_worker_death": retried,
              "wall_max": max(walls) if walls else 0, "wall_mean": round(sum(walls) / len(walls), 2) if walls else 0}
   return summary, disagreements, recs
 
@@ -852,7 +881,8 @@ def correspond(res, rng, tier):
     small = [f for f in files if os.path.getsize(os.path.join(root, f)) <= 30000]
     chosen = sorted(rng.sample(small, min(n_std, len(small))))
   else:
-    chosen = files
+    chosen = list(files)
+    rng.shuffle(chosen)   # the phase has a wall-clock budget: which files are reached varies with the seed
   std_cases = []
   for f in chosen:
     s = read_text(os.path.join(root, f))
@@ -873,11 +903,11 @@ def correspond(res, rng, tier):
   pool = Pool()
   try:
     t1 = time.time()
-    s1, d1, recs1 = run_inputs(pool, cases, rng, 90 if quick else 150, known, drv)
+    s1, d1, recs1 = run_inputs(pool, cases, rng, 90 if quick else 150, known, drv, budget=120 if quick else 540)
     t_gen = time.time() - t1
     t1 = time.time()
     # stdlib: label kept for the report; sources can be large
-    s2, d2, recs2 = run_inputs(pool, std_cases, rng, 60 if quick else 240, known, drv)
+    s2, d2, recs2 = run_inputs(pool, std_cases, rng, 60 if quick else 150, known, drv, budget=60 if quick else 600)
     t_std = time.time() - t1
   finally:
     pool.close()
@@ -909,6 +939,7 @@ def correspond(res, rng, tier):
       "distinct_opcodes_seen_3_12": len([n for n in seen if not n.startswith("intrinsic:")]),
       "intrinsics_seen": sorted(n[10:] for n in seen if n.startswith("intrinsic:")),
       "timeouts": s1["verdicts"].get("timeout", 0) + s2["verdicts"].get("timeout", 0),
+      "skipped_by_budget": s1["verdicts"].get("skipped", 0) + s2["verdicts"].get("skipped", 0),
       "seconds": {"shell": round(t_shell, 1), "programs": round(t_gen, 1), "stdlib": round(t_std, 1)},
       "workers": NWORKERS,
   }
@@ -958,7 +989,7 @@ def witnesses(res):
 # ------------------------------------------------------------------------------------------------ S
 def _fail_sig(src, rec, known):
   verdict, detail = judge(src, rec, known)
-  if verdict in ("ok", "known", "env", "timeout", "harness"):
+  if verdict in ("ok", "known", "env", "timeout", "skipped", "harness", "usage-error"):
     return None
   return (verdict, tuple(detail.get("identity", ())) if isinstance(detail, dict) else ())
 
@@ -970,8 +1001,17 @@ def shrink_source(pool, src, sig, nofail, check, known, budget=60.0):
     s = "\n".join(ls)
     rec = pool.run([(s, nofail, check)], 60)[0]
     return _fail_sig(s, rec, known) == sig
-  small = common.ddmin(lines, fails, budget_s=budget)
-  return "\n".join(small)
+  small = "\n".join(common.ddmin(lines, fails, budget_s=budget))
+  # token level: pieces = token text with the whitespace before it
+  toks = c15_gen.tokens_of(small)
+  if toks:
+    pieces, pos = [], 0
+    for _, _, _, b in toks:
+      pieces.append(small[pos:b])
+      pos = b
+    pieces.append(small[pos:])
+    small = "".join(common.ddmin(pieces, lambda ps: fails(["".join(ps)]), budget_s=budget * 0.7))
+  return small
 
 
 def search(res, rng, disagreements, pfail):
@@ -982,7 +1022,9 @@ def search(res, rng, disagreements, pfail):
   found = []
   cands = [d for d in disagreements if d.get("source") is not None and d["kind"] not in (
       "outcome-model-mismatch", "harness-problem")]
-  cands += [d for d in disagreements if d.get("source") is not None and d["kind"] == "outcome-model-mismatch"]
+  cands.sort(key=lambda d: len(d["source"]))
+  cands += sorted([d for d in disagreements if d.get("source") is not None and d["kind"] == "outcome-model-mismatch"],
+                  key=lambda d: len(d["source"]))
   extra = []
   if pfail and not cands:
     # a broken dispatch table: look for programs whose bytecode contains an opcode without handler
@@ -1090,10 +1132,16 @@ def one(argv):
 
 
 def main():
-  if len(sys.argv) > 1 and sys.argv[1] == "sweep":
-    return sweep(sys.argv[2:])
   if len(sys.argv) > 1 and sys.argv[1] == "one":
     return one(sys.argv[2:])
+  want = str(common.seed() % 4294967296)
+  if os.environ.get("PYTHONHASHSEED") != want:
+    # set/dict iteration order inside pytype depends on str hashing: fix it per VERIF_SEED so that a run is
+    # reproducible (fresh-process confirmations inherit it)
+    os.environ["PYTHONHASHSEED"] = want
+    os.execv(sys.executable, [sys.executable, "-m", "harness.c15"] + sys.argv[1:])
+  if len(sys.argv) > 1 and sys.argv[1] == "sweep":
+    return sweep(sys.argv[2:])
   prepare()
   return common.run_check(
       "C15", REQUIRED, correspond, witnesses, search, extra_targets=["drv_c15"],
@@ -1110,7 +1158,8 @@ def main():
                    "typeshed/ is empty in this sandbox: an initialised-but-empty TYPESHED_HOME is used, imports resolve "
                    "to import-error entries; crashes inside overlay construction for a module whose backing stub is "
                    "missing (collections.abc, typing_extensions) are counted as environment artefacts, not defects",
-                   "a per-case timeout is not a violation (counted in distribution.timeouts)",
+                   "a per-case timeout is not a violation (counted in distribution.timeouts); each testing phase has a "
+                   "wall-clock budget, cases not started within it are counted in distribution.skipped_by_budget",
                    "python_version = host version 3.12: compile happens in-process (compile_bytecode), not via python_exe"])
 
 
